@@ -1,23 +1,44 @@
-CLAIMED = False
-NOT_YET = "correspondence and oracle run green; theorems in progress (nothing is claimed yet)"
 _PIPE_TB = ["Go slice/index semantics as transcribed in Model/Trig.lean (every access through rd/sliceI, a Go panic is the value none)",
             "time.Time arithmetic (block time stamps are harness-chosen integers of nanoseconds)",
             "the kink-model fit of edge-multi (gonum least squares) enters the model as an oracle table of shifts in {-1,0,+1} obtained from the real zeroThreshold",
             "decimation is unreachable from any API and is not modelled"]
-CFG = dict(
-    rule="a scripted source (real AnySource) prepared by the real PrepareRun (restored or default trigger settings), configured through the real "
+_RULE = ("a scripted source (real AnySource) prepared by the real PrepareRun (restored or default trigger settings), configured through the real "
          "SourceControl.ConfigureTriggers / ConfigurePulseLengths and group-trigger requests, fed block by block through the real ProcessSegments; "
-         "1..3 channels, signed and unsigned, (npre,nsamp) from 3/4 to 16/64 (thorough: up to 100/400), streams: flat, pulses, steps, ramps, extremes around "
-         "the signed wrap, dense edges; block lengths 1,2,3, npre+-1, nsamp+-1, 2*nsamp+9..11, up to 4*nsamp or one block; all trigger kinds and "
-         "combinations incl. edge-multi (3 modes, zero-threshold on/off) and group triggers; control requests between blocks. Every captured record is "
-         "judged against the ground-truth stream the harness fed (samples, frame, time, lengths, signedness) and the whole output is compared with the Lean model. "
-         "Non-trivial = at least one record was emitted; distinct by input line.",
+         "1..3 channels, signed and unsigned, (npre,nsamp) from 3/4 to 16/64 (thorough: up to 100/400), streams: flat, pulses (instant and finite rise), steps, ramps, "
+         "extremes around the signed wrap, dense edges; block lengths 1,2,3, npre+-1, nsamp+-1, 2*nsamp+9..11, up to 4*nsamp or one block; ")
+
+
+CLAIMED = True
+CFG = dict(
+    rule=_RULE + "edge-multi triggering only (three record modes, thresholds of either sign incl. 0 and 1, monotone counts 0..3, zero-threshold refinement on/off, "
+         "some invalid / rejected requests); 80% edge-rich streams with finite-rise pulses and close pairs. The REAL pipeline is run twice per case: the stream cut "
+         "into the generated blocks, and the same stream as ONE block; the oracle compares the two record sequences (frame, pre-trigger length, length, samples), "
+         "checks strictly increasing frames, full-length records in fixed modes, non-overlap in variable mode and record exactness (C01 oracle); a crash is a "
+         "violation; the many-block output is also compared with the Lean model. Non-trivial = at least one record was emitted; distinct by input line.",
     nontrivial=["records"],
     jobs=seeds(1, 3),
-    lean_files=["Trig", "Pipe", "PipeJudge", "C08", "C09"],
+    lean_files=["Trig", "Pipe", "PipeJudge", "C08", "C09", "Edge", "Emt", "EmtShift", "EdgeGlobal"],
     trusted_base=_PIPE_TB,
-    assumptions=["blocks of one run carry contiguous frame numbers (C03/C04 establish this for the real sources)"],
+    assumptions=["block independence and absence of out-of-range accesses ACROSS blocks are stated in Lean (C08_block_independent_full, C08_no_oob_full) and decided on the real "
+                 "code by the one-block/many-block oracle on the explored cases; the proved theorems cover the record-extent rule, per-block bounds and locality of the search"],
     timeout=dict(quick=900, thorough=3600),
 )
-MANIFEST = dict(text="", note="", technique="")
-THEOREMS = []
+MANIFEST = dict(
+    text="Theorems over the transcribed edge-multi search and record-extent rule, for every kink-fit oracle: fixed-length modes always give full-length records; a record is "
+         "only made for an edge distinct from its neighbours; variable-length records never overlap the previous record nor extend past the next edge; the search of a block "
+         "never reads outside the buffer; the search on the retained buffer finds exactly what the search on the whole delivered stream finds (locality). Record contents are "
+         "covered by C01_block_exact. Block independence and cross-block bounds are stated at full strength and decided at run time on the REAL code: every case is run "
+         "cut into blocks and as a single block and the record sequences must be identical; a crash is a violation.",
+    note="Trusted: Lean 4.33 kernel (axioms propext, Classical.choice, Quot.sound only; audited every run); the hand-written model is tied to the Go code only by "
+         "differential testing with seeded generators (not a proof). PARTIAL: the cross-block statements (C08_block_independent_full, C08_no_oob_full) are not yet proved; "
+         "they rest on the one-block/many-block oracle over the explored cases. The least-squares kink fit is an oracle table obtained from the real zeroThreshold. "
+         "Two crash defects found through this pipeline were repaired in /repo (5067219, fbc46c8).",
+    technique="Lean 4 theorems over an executable model; one-block vs many-block oracle and model tied to the Go code by a differential correspondence run",
+)
+THEOREMS = [
+    ("DastardV.Props.C08", "DastardV.C08.C08_fixed_modes_full_length"),
+    ("DastardV.Props.C08", "DastardV.C08.C08_at_most_one_record_per_edge"),
+    ("DastardV.Props.C08", "DastardV.C08.C08_variable_no_overlap"),
+    ("DastardV.Props.C08", "DastardV.C08.C08_search_in_bounds"),
+    ("DastardV.Props.C08", "DastardV.C08.C08_search_local"),
+]
